@@ -268,6 +268,51 @@ Definition replay_with (hub : hubcfg) (d : domain) (l : list pin) (Ts : list Z) 
 Definition capture_replay (rnd : Z -> Z) (hub : hubcfg) (d : domain) (start : option Z) (l : list pin) : list pout :=
   replay_with hub d l (written_times rnd start (clocks_of l)).
 
+(** ** The replay device driven by its connector: Start / Stop commands and reads.
+    Pcap.read() delivers the next record only while started; the replay time base
+    (__start_timestamp, set by the first record delivered) lives as long as the device, it is
+    not touched by _on_whad_<domain>_start / _stop.  A record is (record time, content);
+    the result is (relative timestamp delivered, content). *)
+Inductive rop := RStart | RStop | RRead.
+Record rstate := { r_started : bool; r_origin : option Z }.
+Definition r_init : rstate := {| r_started := false; r_origin := None |}.
+
+Fixpoint replay_ops {A} (st : rstate) (ops : list rop) (recs : list (Z * A)) : list (Z * A) :=
+  match ops with
+  | [] => []
+  | RStart :: r => replay_ops {| r_started := true; r_origin := r_origin st |} r recs
+  | RStop :: r => replay_ops {| r_started := false; r_origin := r_origin st |} r recs
+  | RRead :: r =>
+      if r_started st then
+        match recs with
+        | [] => []                                   (* EOF: the device disconnects *)
+        | (T, a) :: recs' =>
+            let o := match r_origin st with Some o => o | None => read_ts T end in
+            (read_ts T - o, a) :: replay_ops {| r_started := true; r_origin := Some o |} r recs'
+        end
+      else replay_ops st r recs
+  end.
+
+(** number of reads performed while started *)
+Fixpoint eff_reads (started : bool) (ops : list rop) : nat :=
+  match ops with
+  | [] => O
+  | RStart :: r => eff_reads true r
+  | RStop :: r => eff_reads false r
+  | RRead :: r => if started then S (eff_reads started r) else eff_reads started r
+  end.
+
+(** start / k1 packets / stop / start / k2 packets / ... / rest (one read more: EOF) *)
+Definition restart_ops (ks : list nat) (n : nat) : list rop :=
+  RStart :: flat_map (fun k => repeat RRead k ++ [RStop; RStart]) ks ++ repeat RRead (S n).
+
+Definition capture_replay_ops (rnd : Z -> Z) (hub : hubcfg) (d : domain) (start : option Z) (l : list pin)
+           (ops : list rop) : list (Z * pout) :=
+  replay_ops r_init ops (map (fun o => (o_time o, o)) (capture_replay rnd hub d start l)).
+
+Definition set_rel (o : pout) (r : Z) : pout :=
+  {| o_time := o_time o; o_khz := o_khz o; o_frame := o_frame o; o_a := o_a o; o_b := o_b o; o_rel := r |}.
+
 (** ** The property's items: channel, signal strength, direction, integrity flag.
     An absent direction and BleDirection.UNKNOWN are the same statement. *)
 Definition canon_dir (d : domain) (x : option Z) : option Z :=
@@ -343,6 +388,14 @@ Definition check_capture_split (c : domain * (bool * bool) * list pin * list pin
   let T2 := written_times (fun z => z) (match T1 with t :: _ => Some t | [] => None end) (clocks_of l2) in
   all2 pout_matches
        (replay_with {| ble_rssi_optional := ro; ble_crc_optional := co |} d (l1 ++ l2) (T1 ++ T2)) o.
+
+(** a replay during which the connector is stopped and started again after k1, k1+k2, ... packets *)
+Definition check_capture_ops (c : domain * (bool * bool) * list pin * list nat * list obs) : bool :=
+  let '(d, (ro, co), l, ks, o) := c in
+  all2 pout_matches
+       (map (fun x : Z * pout => set_rel (snd x) (fst x))
+            (capture_replay_ops (fun z => z) {| ble_rssi_optional := ro; ble_crc_optional := co |} d None l
+                                (restart_ops ks (length l)))) o.
 
 (** a writer that raised while encoding: the model must predict it *)
 Definition check_unencodable (c : domain * meta) : bool := negb (encodable (fst c) (snd c)).
